@@ -12,8 +12,16 @@ for pid in ids:
         continue
     p = cfg["property"][pid]
     engines = sorted({cfg["ob"][o.split("~")[0]].get("engine", "kani") for o in p["obligations"]})
-    eng = " + ".join({"kani": "Kani/CBMC bounded model checking of the compiled functions",
-                      "mir": "SMT (z3, cvc5 cross-check) over an encoding generated from the MIR dump"}[e] for e in engines)
+    XS_ = {"O19.2", "O15.4", "O17.3", "O1.4", "O15.3", "O4.1", "O4.5", "O1.6", "O5.4"}
+    obs_ = {o.split("~")[0] for o in p["obligations"]}
+    parts = []
+    if "kani" in engines:
+        parts.append("Kani 0.68 / CBMC 6.11 bounded model checking of the compiled functions (kani::any() inputs, unwinding assertions on)")
+    if any(cfg["ob"][o].get("engine") == "mir" and o not in XS_ for o in obs_):
+        parts.append("SMT (z3 4.8.12 + cvc5 1.0 cross-check) over event automata generated from the nightly MIR dump of the real functions (step-indexed bounded model checking of the control-flow graph; integer glue facts as bit-vector equivalences)")
+    if obs_ & XS_:
+        parts.append("bounded symbolic execution of the functions' MIR with bit-vector data (one SMT query per path and requirement; cvc5 with the integer encoding of bit-vectors decides, a second solver cross-checks)")
+    eng = " + ".join(parts)
     checks.append({
         "property_id": pid,
         "quick_cmd": "./check %s --tier quick" % pid,
@@ -40,8 +48,10 @@ m = {
     "engines": [
         {"name": "K", "path": "check (lib/driver.py, harness/, models/)", "serves_properties": [c["property_id"] for c in checks if "kani" in c["engine"]],
          "kind_free_text": "Kani 0.68 / CBMC 6.11 bounded model checking of the real functions, symbolic inputs, unwinding assertions on"},
-        {"name": "M", "path": "mirsym/", "serves_properties": [c["property_id"] for c in checks if "mir" in c["engine"]],
-         "kind_free_text": "MIR (-Zunpretty=mir) effect encoder + z3/cvc5: ordering, fault and crash-point properties of I/O-bound functions"}],
+        {"name": "M", "path": "mirsym/ (mir.py, bmc.py, glue.py, specs.py)", "serves_properties": [c["property_id"] for c in checks if "mir" in c["engine"]],
+         "kind_free_text": "MIR (-Zunpretty=mir) event automata + z3/cvc5: ordering, fault and structure properties of I/O-bound functions"},
+        {"name": "X", "path": "mirsym/ (symex.py, xspecs.py)", "serves_properties": [pid for pid in ids if pid in cfg["property"] and ({o.split("~")[0] for o in cfg["property"][pid]["obligations"]} & {"O19.2", "O15.4", "O17.3", "O1.4", "O15.3", "O4.1", "O4.5", "O1.6", "O5.4"})],
+         "kind_free_text": "bounded symbolic execution of MIR with data (bit-vectors, symbolic enums, iterator algebra, library models) + cvc5/z3"}],
     "checks": checks,
     "notes": "Exit codes: 0 all obligations proved within bounds; 1 refuted + replayed (VIOLATION line); 2 inconclusive (build failure of a harness, timeout, OOM, vacuous harness, non-reproducing counterexample).",
     "not_applicable": [{"property_id": pid, "reason": na[pid]} for pid in ids if pid not in cfg["property"]],
@@ -57,7 +67,7 @@ lines = ["# Coverage by property (generated from obligations.toml by lib/gen_man
          "Engine K = Kani/CBMC harness over the compiled crate; engine M = event automaton over the function's MIR, decided by z3 + cvc5;",
          "engine X = bounded symbolic execution of the function's MIR with data, decided by cvc5 (integer encoding) + cross-check.",
          "`Ox.y~regex` = only the queries / harness instances of that obligation whose name matches.", ""]
-XS = {"O19.2", "O15.4", "O17.3", "O1.4", "O15.3", "O4.1", "O4.5"}
+XS = {"O19.2", "O15.4", "O17.3", "O1.4", "O15.3", "O4.1", "O4.5", "O1.6", "O5.4"}
 for pid in sorted(cfg["property"]):
     p = cfg["property"][pid]
     lines.append("## %s" % pid)
